@@ -13,7 +13,7 @@ make Factory.fromJson raise; every unmutated document must load.
 import copy
 import json
 
-from .. import observe as O, spec as S
+from .. import env, observe as O, spec as S
 from . import common as C
 
 ID = "C15"
@@ -292,10 +292,51 @@ def run_case(i, rng, tier):
         label, sp = C.pick_spec(10**9, rng, tier, OPTS, "c15")
         n = rng.randint(0, 8)
     stream = S.gen_stream(rng, sp, n)
-    h = C.fill_all(S.build(sp), stream)
+    counters = {"documents": 1}
+    if i % 5 == 4:
+        # a state reached by merging partial results whose data are all one non-integer value (a fine binning merged
+        # across partitions): accumulated moments of such merges are where rounding leaves -1e-17 or 1 - 1e-16
+        base = S.gen_stream(rng, sp, 1)[0][0]
+        v = rng.choice([0.3, 0.7, 1.1, 0.1, 2.2, -0.3])
+        if isinstance(base, dict):
+            base = dict(base)
+            for f_ in ("x", "y", "z"):
+                if isinstance(base.get(f_), float):
+                    base[f_] = v
+        n1, n2 = rng.randint(1, 5), rng.randint(1, 6)
+        stream = [(base, 1.0)] * (n1 + n2)
+        try:
+            h = C.fill_all(S.build(sp), stream[:n1]) + C.fill_all(S.build(sp), stream[n1:])
+            if rng.random() < 0.5:
+                h += C.fill_all(S.build(sp), stream[: rng.randint(1, 4)])
+            counters["merged_constant_states"] = 1
+        except Exception:  # noqa: BLE001
+            h = C.fill_all(S.build(sp), stream)
+    else:
+        h = C.fill_all(S.build(sp), stream)
     doc = json.loads(json.dumps(h.toJson(), allow_nan=False))
     failures = []
-    counters = {"documents": 1}
+    if i % 5 == 4:
+        # the same for every moment-carrying leaf, bare and as bin content: the merged partials of constant data
+        hg_ = env.hg()
+        ident = lambda d: d  # noqa: E731
+        for v_ in (0.3, 0.7, 1.1, 0.1):
+            for n1_ in range(1, 5):
+                n2_ = rng.randint(1, 6)
+                for mk_ in (lambda: hg_.Deviate(ident), lambda: hg_.Average(ident), lambda: hg_.Categorize(lambda d: "k", hg_.Deviate(ident)), lambda: hg_.Bin(2, 0.0, 4.0, ident, hg_.Deviate(ident)), lambda: hg_.SparselyBin(0.5, ident, hg_.Deviate(ident))):
+                    a_, b_ = mk_(), mk_()
+                    for _ in range(n1_):
+                        a_.fill(v_)
+                    for _ in range(n2_):
+                        b_.fill(v_)
+                    m_ = a_ + b_
+                    counters["merged_constant_leaf_documents"] = counters.get("merged_constant_leaf_documents", 0) + 1
+                    try:
+                        d_ = json.loads(json.dumps(m_.toJson(), allow_nan=False))
+                        Factory.fromJson(copy.deepcopy(d_))
+                    except Exception as e:  # noqa: BLE001
+                        failures.append(C.fail(None, "a document produced by toJson (merge of %d x %r and %d x %r) is refused: %s: %s" % (n1_, v_, n2_, v_, type(e).__name__, str(e)[:200]), document=m_.toJson()))
+                        break
     sets = {"kinds": S.kinds_in(sp)}
     wit0 = {"tree": S.describe(sp), "spec": sp, "stream": C.stream_json(stream)}
     try:
